@@ -202,7 +202,8 @@ int ColdStart(unsigned seed, int nthreads) {
       unsigned s = seed * 2654435761u + static_cast<unsigned>(i) * 40503u + 1u;
       auto rnd = [&] { s = s * 1664525u + 1013904223u; return s >> 8; };
       ++ready;
-      while (ready.load() < nthreads) {}        // start together
+      // start together (bounded, yielding wait: on a machine with few cores the threads must not spin each other out)
+      for (int spin = 0; ready.load() < nthreads && spin < 200000; ++spin) std::this_thread::yield();
       if (i % 3 == 1) std::this_thread::sleep_for(std::chrono::microseconds(rnd() % 400));
       for (int k = 0; k < 6; ++k) {
         cctz::time_zone tz;
